@@ -34,4 +34,6 @@ def run(rep, tier):
         rep.call(kernel_sign, rep, prog, "C18.kernel-sign")
         rep.call(simd_rules.zero_extend, rep, prog, "C18.zero-extend")
         rep.call(simd_rules.conv_saturate, rep, prog, "C18.saturate")
+        from ..engines import type_tables
+        rep.call(type_tables.clip_table, rep, prog, "C18.clip-table")
         rep.call(roundbudget.budget, rep, prog, "C18.round-budget", {"x86": 110, "arm": 60, "wasm": 55}.get(cfg, 40))
